@@ -488,6 +488,22 @@ pub fn gen_planted(rng: &mut Rng, max_cons: usize, pert: f64, shapes: &[&str]) -
             cons.push(Constraint::Fixed(id, pl.xs[id as usize]));
         }
     }
+    // explicit angles are understood modulo a full turn and in either unit: now and then a planted
+    // angle is written with whole turns added or removed (270deg for -90deg, 450deg, -5.5rad ...)
+    if rng.chance(1, 5) {
+        for c in cons.iter_mut() {
+            let re = |rng: &mut Rng, a: &Angle| -> Angle {
+                let (deg, v) = crate::codec::angle_parts(a);
+                let turns = *rng.pick(&[-2.0, -1.0, 1.0, 1.0, 2.0]);
+                if deg { Angle::from_degrees(v + 360.0 * turns) } else { Angle::from_radians(v + 2.0 * PI * turns) }
+            };
+            match c {
+                Constraint::LinesAtAngle(a, b, AngleKind::Other(ang)) => *c = Constraint::LinesAtAngle(*a, *b, AngleKind::Other(re(rng, ang))),
+                Constraint::ArcAngle(a, ang) => *c = Constraint::ArcAngle(*a, re(rng, ang)),
+                _ => {}
+            }
+        }
+    }
     rng.shuffle(&mut cons);
     let guesses: Vec<(u32, f64)> = pl
         .xs
